@@ -16,6 +16,26 @@ CLAIMED = {
         note=("Trusted: Coq kernel/vm_compute; snapshot translator (NODE_TYPE_MAPPING read-out, AST scan for emitted loader names); "
               "impl runner. Old-layout value fidelity is exercised under C05, not here."),
         ref="DESIGN.md section 4 C08"),
+    "C03": dict(
+        technique="Coq proof (audit-with-T = audit-without-T filtered, for every archive) + model/implementation correspondence",
+        text=("Theorems in coq/props/C03.v over an executable Gallina model of get_tree / get_unsafe_set (all 29 loaders, arbitrary JSON, shared and cyclic ids): "
+              "auditing with a trusted list equals auditing without one minus the list (same order, same exceptions) for every archive, fuel and path; hence load raises "
+              "UntrustedTypesFoundException exactly when get_untrusted_types has a name outside T and names exactly those, never blocks otherwise, is monotone in T, depends "
+              "on T only as a set, rejects trusted=True. The side condition 'every node class builds its list from the caller's list' is re-proved by vm_compute on the class "
+              "table probed from /repo each run. The model is tied to the code by differential runs on generated valid+malformed archives x trusted specs; the three entry "
+              "points and spellings of T (tuple, shuffled, duplicates, type objects) are compared on the implementation directly."),
+        note=("Trusted: Coq kernel/vm_compute; snapshot probes; generator + impl runner + absval fingerprint; JSON floats modelled as half-integers; repr of containers in name "
+              "slots outside the modelled domain (counted). Sortedness of the reported list is checked on the implementation, its element set is proved."),
+        ref="DESIGN.md section 4 C03"),
+    "C11": dict(
+        technique="Coq proof over regenerated default-trust tables + exhaustive-by-universe correspondence",
+        text=("coq/props/C11.v: (per run, vm_compute over the ~550 default-trusted names probed from the live code) every default name of every registered node class carries a "
+              "family tag admissible for that kind; (for all trees) every node, at any depth, whose audited name is outside its trusted list is reported, and only such names are "
+              "reported; with no trusted list a node trusts exactly its defaults plus what Tree/Loss ancestors hand down. One-node archives for every (loader, protocol) x names "
+              "enumerated from the modules the property lists are run through get_untrusted_types/load and compared with the model, and checked against the family oracle."),
+        note=("Trusted: family tagging oracle harness/families.py (isinstance/issubclass on resolved objects); snapshot probes; Coq kernel. Known finding D03 (bit-generator name "
+              "resolved unaudited) is reported as KNOWN-FINDING. The tree-level theorems assume `leafy` (Json/Slice/Function nodes have only raw leaves), true of get_tree output."),
+        ref="DESIGN.md section 4 C11"),
 }
 
 PENDING_REASON = "check not built yet (see DESIGN.md section 8 build order); not claimed in this revision"
